@@ -19,7 +19,7 @@ func init() { cmds["C13"] = runC13 }
 
 // answers of a trusted peer to a single-header request for main:60
 var c13Alphabet = []string{
-	"valid", "other:61", "otherfork:60", "wrongchain", "invalid", "garbage", "truncated", "oversized",
+	"valid", "other:61", "otherfork:60", "wrongchain", "nochain", "invalid", "garbage", "truncated", "oversized",
 	"status", "emptybody", "empty", "notfound", "reset", "hang",
 }
 
@@ -35,6 +35,8 @@ func (e *p2pEnv) getReply(a string) peers.Reply {
 		return peers.Reply{Kind: "ok", Headers: []*vhdr.Header{e.fork[59]}}
 	case a == "wrongchain":
 		return peers.Reply{Kind: "ok", Headers: []*vhdr.Header{{Chain: "B", H: 60, T: want.T, Prev: want.Prev}}}
+	case a == "nochain": // decodes and validates, but carries no chain id at all
+		return peers.Reply{Kind: "ok", Headers: []*vhdr.Header{{Chain: "", H: 60, T: want.T, Prev: want.Prev, NC: true}}}
 	case a == "invalid":
 		return peers.Reply{Kind: "ok", Headers: []*vhdr.Header{{Chain: "A", H: 60, T: want.T, Bad: true}}}
 	case a == "garbage":
